@@ -1,3 +1,274 @@
-/-! # C16 — property theorems (stub: filled in when the property's model is built) -/
+import ScenicModel.Props.C16Sem
+import ScenicModel.Props.C16Points
+import ScenicModel.Props.C16Metric
+import ScenicModel.Gen.RegionOps
+
+/-!
+# C16 — region operations obey set semantics in 3-D: property theorems on the data regenerated from /repo
+
+`Scenic.Gen.RegionOps.table` (the `isinstance` chains of every class's `intersect / union / difference /
+intersects`) and `Scenic.Gen.RegionOps.flags` (which height each point predicate / constructor uses) are
+rewritten from `src/scenic/core/regions.py` by `tools/translate/regionops.py` on every check run.  The
+`gen_*` theorems are side conditions on that data, re-decided by the kernel on every run over the whole
+finite control abstraction (every ordered pair of kinds × lazy/eager × height relation); the other
+theorems combine them with the general theorems of `C16Sem` / `C16Points` / `C16Metric`.
+
+Statement wanted by the property, kept visible:
+
+    ∀ A B p,  (A.intersect B).mem p = (A.mem p ∧ B.mem p),   (A.union B).mem p = (A.mem p ∨ B.mem p),
+              (A.difference B).mem p = (A.mem p ∧ ¬ B.mem p),  A.intersects B ↔ ∃ p, A.mem p ∧ B.mem p
+
+It does **not** hold of the code at the pinned commit (see `knownFamily`, `knownIsectFamily`, `loopy` and the witness
+theorems of `C16Sem` / `C16Points`); what is proved is the statement outside those families, and the check
+replays a concrete failing input of each family on the real code (known findings).
+-/
 namespace Scenic.C16
+open Scenic.Region Scenic.Gen.RegionOps
+
+def bools : List Bool := [false, true]
+
+/-- every control state -/
+def allCtl : List Ctl :=
+  Kind.list.flatMap fun ka => Kind.list.flatMap fun kb => bools.flatMap fun la => bools.flatMap fun lb =>
+    bools.flatMap fun zne => bools.flatMap fun ea => bools.map fun eb => ⟨ka, kb, la, lb, zne, ea, eb⟩
+
+theorem mem_kinds (k : Kind) : k ∈ Kind.list := by cases k <;> simp [Kind.list]
+theorem mem_bools (b : Bool) : b ∈ bools := by cases b <;> simp [bools]
+
+theorem mem_allCtl (c : Ctl) : c ∈ allCtl := by
+  obtain ⟨ka, kb, la, lb, zne, ea, eb⟩ := c
+  simp only [allCtl, List.mem_flatMap, List.mem_map]
+  exact ⟨ka, mem_kinds ka, kb, mem_kinds kb, la, mem_bools la, lb, mem_bools lb, zne, mem_bools zne, ea, mem_bools ea,
+    eb, mem_bools eb, rfl⟩
+
+/-- control states that two regions can produce: heights only exist on planar operands -/
+def consistent (c : Ctl) : Bool :=
+  (!c.zne || (planarK c.ka && planarK c.kb)) && (!c.ea || planarK c.ka) && (!c.eb || planarK c.kb)
+
+theorem z_none_of_not_planar (A : Reg) (h : planarK A.kind = false) : A.z? = none := by
+  induction A with
+  | lzy r ih => exact ih (by simpa [Reg.kind] using h)
+  | planar => simp [Reg.kind, planarK, Kind.isa] at h
+  | disc => simp [Reg.kind, planarK, Kind.isa, Kind.parent] at h
+  | _ => rfl
+
+theorem ctlOf_consistent (A B : Reg) : consistent (ctlOf A B) = true := by
+  simp only [consistent, ctl_ka, ctl_kb, Bool.and_eq_true, Bool.or_eq_true, Bool.not_eq_true']
+  refine ⟨⟨?_, ?_⟩, ?_⟩
+  · by_cases ha : planarK A.kind = true
+    · by_cases hb : planarK B.kind = true
+      · exact Or.inr ⟨ha, hb⟩
+      · left; simp [ctlOf, z_none_of_not_planar B (by simpa using hb)]
+    · left; simp [ctlOf, z_none_of_not_planar A (by simpa using ha)]
+  · by_cases ha : planarK A.kind = true
+    · exact Or.inr ha
+    · left; simp [ctlOf, z_none_of_not_planar A (by simpa using ha), elevated]
+  · by_cases hb : planarK B.kind = true
+    · exact Or.inr hb
+    · left; simp [ctlOf, z_none_of_not_planar B (by simpa using hb), elevated]
+
+/-- the control states two regions can produce (what the kernel evaluates the side conditions on) -/
+def goodCtl : List Ctl := allCtl.filter consistent
+
+theorem mem_goodCtl (A B : Reg) : ctlOf A B ∈ goodCtl :=
+  List.mem_filter.mpr ⟨mem_allCtl _, ctlOf_consistent A B⟩
+
+/-- the route ends in a handler or a composite (no `None` result, no unbounded recursion) -/
+def finished : Route → Bool
+  | .run _ => true
+  | .compose => true
+  | .swap r => finished r
+  | .lift _ r => finished r
+  | .viaIntersect r => finished r
+  | .crash => false
+  | .fuel => false
+
+/-- **finding `crash:union:lazy:poly-poly:RecursionError`**: `PolygonalRegion.union` defers lazy operands with
+    `super().union(other)`, dropping `triedReversed`; two polygonal operands then bounce forever.  The family is
+    read off the regenerated table: it is empty as soon as the clause passes the flag on. -/
+def loopy (T : Table) (op : Op) (c : Ctl) : Bool :=
+  op == .union && planarK c.ka && planarK c.kb && (c.la || c.lb) &&
+    (match T.cls .poly .union with
+     | some cs => cs.any (fun cl => cl.guards == [.lzy] && cl.act == .superFresh)
+     | none => false)
+
+/-- families of control states in which the pinned code does not obey set semantics (known findings) -/
+def knownFamily (op : Op) (c : Ctl) : Bool :=
+  -- a polygon at height ≠ 0 against a polyline (which lives at height 0), in either order
+  ((op == .intersect || op == .difference) &&
+        ((planarK c.ka && c.kb == .line && c.ea) || (c.ka == .line && planarK c.kb && c.eb)))
+  -- a polygon minus a curve is returned unchanged (not representable; by design)
+  || (op == .difference && planarK c.ka && c.kb == .line)
+  -- unions of a polygon with a polyline or a footprint collapse to a polygon at the polygon's height
+  || (op == .union && ((planarK c.ka && (c.kb == .line || c.kb == .foot)) || (planarK c.kb && (c.ka == .line || c.ka == .foot))))
+
+/-- the control states of the known families whose route on the *current* table is indeed not accepted
+    (empty for a family once the code is repaired) -/
+def knownDefect (T : Table) (F : Flags) (op : Op) (c : Ctl) : Bool :=
+  loopy T op c || (knownFamily op c && !routeOK F op c (routeOf T fuelBound op c))
+
+/-- families in which `intersects` does not decide "share a point" at the pinned commit (known findings) -/
+def knownIsectFamily (c : Ctl) : Bool :=
+  (planarK c.ka && c.kb == .line && c.ea) || (c.ka == .line && planarK c.kb && c.eb)      -- height of the polygon ignored
+  || (c.ka == .disc && c.kb == .disc && c.zne)                                         -- CircularRegion override skips the height test
+  -- `PointSetRegion.intersects` asks `containsPoint`, which has footprint semantics for polygons and composites
+  || (c.ka == .pts && (c.kb == .poly || c.kb == .comp)) || (c.kb == .pts && (c.ka == .poly || c.ka == .comp))
+
+/-- the control states of the known `intersects` families whose route on the current table is indeed not accepted -/
+def knownIsectDefect (T : Table) (F : Flags) (c : Ctl) : Bool :=
+  knownIsectFamily c && !isectRouteOK' F c (routeOf T fuelBound .intersects c)
+
+/-! ## side conditions on the regenerated data (re-decided on every run) -/
+
+/-- the heights used by the point predicates are the ones the property needs -/
+theorem gen_flags_ok :
+    flags.pointsOK ∧ flags.fromShapelyPassesZ = true ∧ flags.polyDistZ = .selfZ ∧ flags.discDistPlane = .selfZ ∧
+    flags.polyAABBZ = .selfZ ∧ flags.discAABBZ = .selfZ ∧ flags.projectAxis1 = true := by
+  unfold Flags.pointsOK; decide
+
+/-- every ordered pair of kinds, lazy or eager, at equal or different heights, reaches a handler or a
+    composite within the fuel bound, for all four operations (outside the `loopy` family) -/
+theorem gen_routes_terminate :
+    (Op.list.all fun op => goodCtl.all fun c =>
+      loopy table op c || finished (routeOf table fuelBound op c)) = true := by
+  decide +kernel
+
+/-- every route taken by intersect / union / difference is accepted by the judgement `routeOK`
+    (outside the `knownDefect` families) -/
+theorem gen_routes_sound :
+    ([Op.intersect, Op.union, Op.difference].all fun op => goodCtl.all fun c =>
+      loopy table op c || knownFamily op c || routeOK flags op c (routeOf table fuelBound op c)) = true := by
+  decide +kernel
+
+/-- every route taken by `intersects` is accepted by `isectRouteOK'` (exact handlers, or the generic
+    `self.intersect(other)` test on an accepted `intersect` route), outside the known families -/
+theorem gen_routes_intersects_sound :
+    (goodCtl.all fun c =>
+      knownIsectFamily c || isectRouteOK' flags c (routeOf table fuelBound .intersects c)) = true := by
+  decide +kernel
+
+/-- polygonal operands at a common height are routed to the handlers that keep that height -/
+theorem gen_planar_routes :
+    ([Kind.poly, Kind.disc].all fun ka => [Kind.poly, Kind.disc].all fun kb => bools.all fun ea => bools.all fun eb =>
+      routeOf table fuelBound .intersect ⟨ka, kb, false, false, false, ea, eb⟩ == .run (.polyAnd true) &&
+      routeOf table fuelBound .union ⟨ka, kb, false, false, false, ea, eb⟩ == .run (.polyOr true) &&
+      routeOf table fuelBound .difference ⟨ka, kb, false, false, false, ea, eb⟩ == .run (.polySub true)) = true := by
+  decide +kernel
+
+/-! ## the property, on the regenerated data -/
+
+section
+variable (O : Oracle) (A B : Reg) (hfa : A.kind = .foot → bareFoot A) (hfb : B.kind = .foot → bareFoot B)
+include hfa hfb
+
+theorem mem_op (op : Op) (hop : op = .intersect ∨ op = .union ∨ op = .difference)
+    (hk : knownDefect table flags op (ctlOf A B) = false) :
+    ∃ res, dispatch table O flags op A B = .res res ∧ ∀ p, res.mem p = op.sem (A.mem p) (B.mem p) := by
+  have h := gen_routes_sound
+  simp only [List.all_eq_true] at h
+  have hop' : op ∈ [Op.intersect, Op.union, Op.difference] := by
+    rcases hop with rfl | rfl | rfl <;> simp
+  have := h op hop' (ctlOf A B) (mem_goodCtl A B)
+  simp only [knownDefect, Bool.or_eq_false_iff, Bool.and_eq_false_iff, Bool.not_eq_false'] at hk
+  have hr : routeOK flags op (ctlOf A B) (routeOf table fuelBound op (ctlOf A B)) = true := by
+    simp only [hk.1, Bool.false_or, Bool.or_eq_true] at this
+    rcases this with hf | hr
+    · rcases hk.2 with hnf | hr
+      · rw [hf] at hnf; exact absurd hnf (by simp)
+      · exact hr
+    · exact hr
+  exact exec_sound O flags op _ A B hfa hfb hr
+
+/-- a point belongs to `A.intersect(B)` exactly when it belongs to both, in three coordinates
+    (all regions of the modelled kinds, outside the known-finding families) -/
+theorem mem_intersect (hk : knownDefect table flags .intersect (ctlOf A B) = false) :
+    ∃ res, dispatch table O flags .intersect A B = .res res ∧ ∀ p, res.mem p = (A.mem p && B.mem p) :=
+  mem_op O A B hfa hfb .intersect (Or.inl rfl) hk
+
+theorem mem_union (hk : knownDefect table flags .union (ctlOf A B) = false) :
+    ∃ res, dispatch table O flags .union A B = .res res ∧ ∀ p, res.mem p = (A.mem p || B.mem p) :=
+  mem_op O A B hfa hfb .union (Or.inr (Or.inl rfl)) hk
+
+theorem mem_difference (hk : knownDefect table flags .difference (ctlOf A B) = false) :
+    ∃ res, dispatch table O flags .difference A B = .res res ∧ ∀ p, res.mem p = (A.mem p && !B.mem p) :=
+  mem_op O A B hfa hfb .difference (Or.inr (Or.inr rfl)) hk
+
+end
+
+example : knownDefect table flags .intersect (ctlOf (.planar 5 unitDisc) (.vol (Box.aligned ⟨0, 0, 5⟩ ⟨1, 1, 1⟩))) = false := by
+  decide +kernel
+
+/-- `A op B` never falls off a method or recurses without bound, for every pair of regions and all four
+    operations (outside the lazy-union family, which does: finding `crash:union:lazy:poly-poly:RecursionError`) -/
+theorem dispatch_terminates (A B : Reg) (op : Op) (hl : loopy table op (ctlOf A B) = false) :
+    finished (routeOf table fuelBound op (ctlOf A B)) = true := by
+  have h := gen_routes_terminate
+  simp only [List.all_eq_true] at h
+  have hop : op ∈ Op.list := by cases op <;> simp [Op.list]
+  have := h op hop (ctlOf A B) (mem_goodCtl A B)
+  simpa [hl] using this
+
+/-- intersect / union / difference of two eagerly built polygonal regions at the same height is a polygonal
+    region **at that height** (the defect repaired by 4fd67d49 made it height 0) -/
+theorem result_keeps_height (O : Oracle) (A B : Reg) (ha : planarK A.kind = true) (hb : planarK B.kind = true)
+    (hla : A.isLazy = false) (hlb : B.isLazy = false) (hz : A.zz = B.zz) :
+    (∃ s, dispatch table O flags .intersect A B = .res (.planar A.zz s)) ∧
+    (∃ s, dispatch table O flags .union A B = .res (.planar A.zz s)) ∧
+    (∃ s, dispatch table O flags .difference A B = .res (.planar A.zz s)) := by
+  have hc : ctlOf A B = ⟨A.kind, B.kind, false, false, false, decide (A.zz ≠ 0), decide (B.zz ≠ 0)⟩ := by
+    have h1 := ctl_zne ha hb
+    have h2 := @ctl_ea A B ha
+    have h3 := @ctl_eb A B hb
+    have hzne : (ctlOf A B).zne = false := by rw [h1]; simp [hz]
+    cases hcc : ctlOf A B with
+    | mk ka kb la lb zne ea eb =>
+      have e1 : ka = A.kind := by have := ctl_ka A B; rw [hcc] at this; exact this
+      have e2 : kb = B.kind := by have := ctl_kb A B; rw [hcc] at this; exact this
+      have e3 : la = false := by have : (ctlOf A B).la = A.isLazy := rfl; rw [hcc] at this; simpa [hla] using this
+      have e4 : lb = false := by have : (ctlOf A B).lb = B.isLazy := rfl; rw [hcc] at this; simpa [hlb] using this
+      rw [hcc] at hzne h2 h3
+      simp only at hzne h2 h3
+      subst e1 e2 e3 e4 hzne h2 h3
+      rfl
+  have hg := gen_planar_routes
+  simp only [List.all_eq_true, Bool.and_eq_true, beq_iff_eq] at hg
+  have hka : A.kind ∈ [Kind.poly, Kind.disc] := by
+    rcases (isa_poly_iff _).mp ha with e | e <;> simp [e]
+  have hkb : B.kind ∈ [Kind.poly, Kind.disc] := by
+    rcases (isa_poly_iff _).mp hb with e | e <;> simp [e]
+  obtain ⟨⟨r1, r2⟩, r3⟩ := hg A.kind hka B.kind hkb (decide (A.zz ≠ 0)) (mem_bools _) (decide (B.zz ≠ 0)) (mem_bools _)
+  obtain ⟨k1, k2, k3⟩ := exec_keeps_height O flags A B ha hb hz gen_flags_ok.2.1
+  simp only [dispatch, hc, r1, r2, r3, exec]
+  exact ⟨k1, k2, k3⟩
+
+example : planarK (Reg.planar 5 unitDisc).kind = true ∧ (Reg.planar 5 unitDisc).isLazy = false := ⟨rfl, rfl⟩
+
+/-- **`A.intersects(B)` is either refused (NotImplementedError) or holds exactly when A and B share a point**,
+    for all regions of the modelled kinds (outside `knownIsectDefect`, computed from the current table: discs at
+    different heights, an elevated polygon against a polyline, a point set against a polygon or a composite —
+    witnesses `disc_intersects_height_witness`, `ptsAny_footprint_witness`), under the contracts of the geometric
+    oracles -/
+theorem intersects_iff_common_point (O : Oracle) (hO : OracleOK O) (A B : Reg)
+    (hrA : 0 ≤ A.radius) (hrB : 0 ≤ B.radius)
+    (hiA : A.kind ≠ .empty → ∃ p, A.mem p = true) (hiB : B.kind ≠ .empty → ∃ p, B.mem p = true)
+    (hfa : A.kind = .foot → bareFoot A) (hfb : B.kind = .foot → bareFoot B)
+    (hk : knownIsectDefect table flags (ctlOf A B) = false) :
+    dispatch table O flags .intersects A B = .notImpl ∨
+    ∃ b, dispatch table O flags .intersects A B = .bool b ∧ (b = true ↔ ∃ p, A.mem p = true ∧ B.mem p = true) := by
+  have h := gen_routes_intersects_sound
+  simp only [List.all_eq_true] at h
+  have := h (ctlOf A B) (mem_goodCtl A B)
+  simp only [knownIsectDefect, Bool.and_eq_false_iff, Bool.not_eq_false'] at hk
+  have hr : isectRouteOK' flags (ctlOf A B) (routeOf table fuelBound .intersects (ctlOf A B)) = true := by
+    simp only [Bool.or_eq_true] at this
+    rcases this with hf | hr
+    · rcases hk with hnf | hr
+      · rw [hf] at hnf; exact absurd hnf (by simp)
+      · exact hr
+    · exact hr
+  exact intersects_sound' O hO flags _ A B hrA hrB hiA hiB hfa hfb hr
+
+example : knownIsectDefect table flags (ctlOf (.planar 5 unitDisc) (.vol (Box.aligned ⟨0, 0, 5⟩ ⟨1, 1, 1⟩))) = false := by
+  decide +kernel
+
 end Scenic.C16
